@@ -13,9 +13,9 @@ CONSTANTS
   NWk = 0
   MaxViewOps = 2
   MaxPost = 1
-  BuildKinds = {"elem", "frag"}
+  BuildKinds = {"elem"}
   GModes = {"all"}
-  GListNames = {"a", "*"}
+  GListNames = {"a"}
   GKinds = {"ls"}
   GMut = {"struct"}
   GOkOnly = TRUE
